@@ -30,6 +30,7 @@ def run(ctx):
     ctx.rule("R9-del-index", "provenance of the index operand of delete(.., Prop::Seq(i)) in update_list includes the new_value parameter")
     ctx.rule("R9-map", "update_map: delete keys flow from the None arm of new_value.get(key); update_value(.., None) keys flow from new_value.iter()")
     ctx.rule("R9-recurse", "update_value passes the nested hydrate value to the matching reconciler")
+    ctx.rule("R9-insert", "update_value (and its closures): a new element / object is *inserted* only on the edge where there is no old value at the position (old == None); otherwise the position is overwritten")
     f = ctx.facts()
     # ---------------- update_list
     b = ctx.body(TI + "update_list")
@@ -111,3 +112,24 @@ def run(ctx):
     for c, seen in want.items():
         if not seen and not any(callee(t) == c for _, t in v.calls()):
             ctx.ob("R9-recurse", "update_value|%s missing" % c.split("::")[-1], False, v.rec["sp"], "update_value no longer reconciles nested %s" % c.split("::")[-1])
+    # ---------------- an occupied position is overwritten, never inserted in front of
+    old_p = [i for i in range(1, v.argc + 1) if v.local_ty(i).startswith("core::option::Option<(automerge::exid::ExId")]
+    if len(old_p) != 1:
+        raise facts.AnchorMissing("update_value old-value parameter")
+    old_ty = v.local_ty(old_p[0])
+    bodies = [v] + [cfg.body(r) for r in f.closures_of(UPDATE_VALUE)]
+    n_ins = 0
+    for bd in bodies:
+        ins = [(bi, t) for bi, t in bd.calls() if callee(t) in (TI + "insert_object", TI + "insert", TI + "do_insert")]
+        none_edges = []
+        for sb, sw in bd.switches():
+            src = bd.bool_operand_source(sw["op"])
+            if src and src["kind"] == "discr" and src.get("ty") == old_ty:
+                hit = [(sb, tb) for val, tb in sw["targets"] if (src["vars"] or {}).get(val) == "None"]
+                none_edges += hit if hit else [(sb, sw["otherwise"])]
+        for k, (bi, t) in util.ordinal_keys(ins, lambda it: "update_value|%s" % callee(it[1]).split("::")[-1]):
+            n_ins += 1
+            ok = bool(none_edges) and bd.edges_dominate(none_edges, bi)
+            ctx.ob("R9-insert", k, ok, t["sp"], "only when there is no old value at the position" if ok else
+                   "a value is inserted although the position already holds one (the insert is not behind old == None): the old element stays and the sequence grows past the target")
+    ctx.floor("insert calls in update_value", n_ins, 1)
